@@ -13,6 +13,7 @@ mod c11;
 mod c13;
 mod c14;
 mod c16;
+mod c17;
 mod c18;
 mod c19;
 mod sync;
@@ -28,6 +29,14 @@ fn main() {
         std::process::exit(2);
     }
     let text = std::fs::read_to_string(&args[2]).expect("read cases");
+    if args[1] == "c17" {
+        // mode=upload starts the real server (which prints to stdout): same arrangement as c11
+        use std::io::Write;
+        let mut buf: Vec<u8> = Vec::new();
+        c17::run(&text, &args[2], &mut buf);
+        std::io::stdout().write_all(&buf).unwrap();
+        return;
+    }
     if args[1] == "c11" {
         // the server under test prints its start-up banner with println!: stdout must not be locked here
         use std::io::Write;
